@@ -271,16 +271,26 @@ def segmentLoop (version : Int) : (fuel : Nat) → Buffer → Array Segment → 
 /-- how many syndromes the decoder asks for: the block's parity length -/
 def RS_SYNDROMES (parity : Nat) : Int := parity
 
+/-- the decoders work on `Import(img)` with the rectangle moved to the origin: same pixels -/
+def normalise (img : Image) : Image :=
+  { img with minX := 0, minY := 0, maxX := img.dx, maxY := img.dy }
+
+/-- whether the decoder unmasks a private copy (repaired source) or the caller's pixels (pinned source) -/
+def DECODE_CLONES : Bool := false
+
 /-- Go: `DecodeBitmap`; also returns the caller's bitmap as it is after the call -/
 def decodeBitmapFull (img : Image) : Out (QRCode × Image) := do
+  if img.dx ≠ img.dy ∨ img.dx < 21 ∨ img.dx > 177 ∨ (img.dx - 17).tmod 4 ≠ 0 then
+    Out.err (α := Unit) "qrcode: invalid image size"
   let version : Int := (img.dx - 17).tdiv 4
-  let (level, mask) ← decodeFormat img
+  let binimg0 := normalise img
+  let (level, mask) ← decodeFormat binimg0
   let w : Int := 16 + 4 * version
   let usedO ← imgAt usedList version
   let pat ← deref (← imgAt maskList mask)
   let used ← deref usedO
-  -- `binimg.Mask(binimg, used, ...)`: binimg shares Pix with the caller's image
-  let binimg ← Image.mask img used pat
+  -- `binimg.Mask(binimg, used, ...)`: binimg shares Pix with the caller's image unless cloned
+  let binimg ← Image.mask binimg0 used pat
   let buf ← readLoop used binimg w ((w + 3) * (w + 3)).toNat { x := w, y := w, dy := -1 } {}
   let cap ← capAt Gen.QR.capacityTable version level
   let blocks ← deinterleave cap.blocks cap.data cap.total buf.buf.toList
@@ -291,7 +301,7 @@ def decodeBitmapFull (img : Image) : Out (QRCode × Image) := do
     result := result ++ (data.take blk.1.length).toArray
   let stream : Buffer := { buf := result }
   let segments ← segmentLoop version (result.size * 8 + 8) stream #[]
-  pure ({ version, level, mask, segments }, binimg)
+  pure ({ version, level, mask, segments }, if DECODE_CLONES then img else { img with pix := binimg.pix })
 
 def decodeBitmap (img : Image) : Out QRCode := do
   let (q, _) ← decodeBitmapFull img
